@@ -3,72 +3,17 @@
 Each predicate decides from the *case* (kind of node, old token spelling, new value) whether the
 defect's trigger is present, without looking at what MontePy wrote; it then confirms (rule iii) that
 the same case with the triggering feature removed passes the oracle, so that any other way of losing
-a number is still reported as a violation."""
-import math
+a number is still reported as a violation.
+
+The six findings of round 1 (precision-cap, intlike-six-digits, scratch-five-digits, int-truncation,
+int-isclose, neg-sci-crash) are fixed in /repo (67080db, a966343, f5bfd19, 14c016e): their predicates are
+gone, their witnesses are regression cases in corpus/C05/fixed-*.json (a fixed entry suppresses nothing)."""
 import re
-from fractions import Fraction
-
-REL_TOL = 1e-9
-
-_TOK = re.compile(r"^([+-]?)(\d*)(\.?)(\d*)(?:([eE]?)([+-]?)(\d+))?$")
 
 
 def _val(case):
     k, s = case["val"]
     return int(s) if k == "i" else float.fromhex(s)
-
-
-def token_shape(tok):
-    """What the spelling of the old token lets MontePy write, decided from the text alone:
-    ('sig', n)      n significant digits  (scientific tokens; integer-looking tokens and jumps: 6;
-                                           no token at all: 5)
-    ('dec', n)      n digits after the point (plain decimal tokens)
-    plus flags: has_point (in the significand), scientific, negative."""
-    if tok is None:
-        return {"style": ("sig", 5), "has_point": True, "sci": False, "neg": False, "scratch": True}
-    if tok == "<J>":
-        return {"style": ("sig", 6), "has_point": False, "sci": False, "neg": False, "scratch": False}
-    m = _TOK.match(tok)
-    if not m:
-        return None
-    sign, d1, dot, d2, letter, esign, edig = m.groups()
-    has_exp = edig is not None and (letter or esign)
-    if edig is not None and not has_exp:
-        return None
-    neg = sign == "-"
-    if has_exp and d1:
-        if dot:
-            return {"style": ("sig", len(d2) + 1), "has_point": True, "sci": True, "neg": neg, "scratch": False}
-        return {"style": ("sig", 6), "has_point": False, "sci": True, "neg": neg, "scratch": False}
-    if dot:
-        return {"style": ("dec", len(tok) - tok.index(".") - 1), "has_point": True, "sci": False, "neg": neg,
-                "scratch": False}
-    return {"style": ("sig", 6), "has_point": False, "sci": False, "neg": neg, "scratch": False}
-
-
-def round_to_style(v, style):
-    """v rounded (half-even, exactly) to what the style can spell; a Fraction"""
-    q = Fraction(v)
-    if q == 0:
-        return q
-    kind, n = style
-    if kind == "dec":
-        return Fraction(round(q, n))
-    a = abs(q)
-    e = 0
-    while a >= 10 ** (e + 1):
-        e += 1
-    while a < Fraction(10) ** e:
-        e -= 1
-    return Fraction(round(q, n - 1 - e))
-
-
-def needs_more_digits(v, style):
-    r = round_to_style(v, style)
-    try:
-        return not math.isclose(float(r), float(v), rel_tol=REL_TOL, abs_tol=0.0)
-    except OverflowError:
-        return True                 # the rounded spelling is beyond the largest double
 
 
 def _passes_with_value(case, v, kind):
@@ -80,92 +25,31 @@ def _passes_with_value(case, v, kind):
     return f is None or f["kind"] != kind
 
 
-def _digits_capped(case, want):
+def C05_conv_og_float(case, params):
+    """F-C05-conv-og-float: a node converted with _convert_to_int() (directly or through
+    is_negatable_identifier) whose token is an integer that float() cannot hold (>= 2**53, not a multiple of
+    the spacing of doubles there); the new integer is exactly float(token) but not int(token):
+    _value_changed compares with the float _og_value, says 'unchanged', and the old token is written."""
     c = case.get("case")
-    if not c or case.get("kind") != "not-close" or c.get("kind") != "f":
+    if not c or case.get("kind") != "int-not-exact":
         return False
-    sh = token_shape(c["tok"])
-    if sh is None or not want(sh):
+    if c.get("kind") != "c":
         return False
+    tok = c.get("tok")
     v = _val(c)
-    if isinstance(v, int):
-        if abs(v) >= 2 ** 1023:
-            return False
-        v = float(v)
-    if not needs_more_digits(v, sh["style"]):
-        return False
-    r = round_to_style(v, sh["style"])
-    try:
-        v2 = float(r)
-    except OverflowError:
-        v2 = math.copysign(1e308, v)
-    return _passes_with_value(c, v2, "not-close")
-
-
-def C05_precision_cap(case, params):
-    """F-C05-precision-cap: the old token has a decimal point; the new value needs more digits after the
-    point (plain tokens) / more significant digits (scientific tokens) than the old token shows."""
-    return _digits_capped(case, lambda sh: sh["has_point"] and not sh["scratch"])
-
-
-def C05_intlike_six_digits(case, params):
-    """F-C05-intlike-six-digits: the old token has no decimal point (integer-looking, '1e3', a jump):
-    a new value that is not close to an integer is written with 6 significant digits."""
-    return _digits_capped(case, lambda sh: not sh["has_point"])
-
-
-def C05_scratch_five_digits(case, params):
-    """F-C05-scratch-five-digits: a node without token (object created from scratch) writes 5 significant digits."""
-    return _digits_capped(case, lambda sh: sh["scratch"])
-
-
-def C05_int_truncation(case, params):
-    """F-C05-int-truncation: integer-looking old token, new float value just below an integer in magnitude
-    and within 1e-9 of it: written with int(), which truncates."""
-    c = case.get("case")
-    if not c or case.get("kind") != "not-close" or c.get("kind") != "f":
-        return False
-    sh = token_shape(c["tok"])
-    v = _val(c)
-    if sh is None or sh["has_point"] or not isinstance(v, float):
-        return False
-    n = round(v)
-    if n == v or int(v) == n or not math.isclose(n, v, rel_tol=REL_TOL, abs_tol=0.0):
-        return False
-    return _passes_with_value(c, float(n), "not-close")
-
-
-def C05_int_isclose(case, params):
-    """F-C05-int-isclose: integer node, the new integer differs from the old one by at most 1e-9 of it:
-    _value_changed says 'unchanged' and the old token is written."""
-    c = case.get("case")
-    if not c or case.get("kind") != "int-not-exact" or c.get("kind") not in ("i", "c"):
-        return False
-    v = _val(c)
-    tok = c["tok"]
     if not isinstance(v, int) or tok in (None, "<J>"):
         return False
     m = re.fullmatch(r"([+-]?\d+)(\.0*)?", tok)
     if not m:
         return False
-    og = int(m.group(1))
-    if og == v or not math.isclose(og, v, rel_tol=REL_TOL, abs_tol=0.0):
+    ti = int(m.group(1))
+    try:
+        tf = float(ti)
+    except OverflowError:
         return False
-    return _passes_with_value(c, 3 * abs(og) + 7, "int-not-exact")
-
-
-def C05_neg_sci_crash(case, params):
-    """F-C05-neg-sci-crash: the old token is negative and scientific; a new non-negative value is formatted
-    with sign option ' ', and _SCIENTIFIC_FINDER.match fails on the leading blank: AttributeError."""
-    c = case.get("case")
-    if not c or case.get("kind") != "exception" or c.get("kind") != "f":
+    if tf == ti:                       # the token's float is the token's integer: no trigger
         return False
-    if (case.get("detail") or {}).get("exc") != "AttributeError":
+    if v != int(tf) or v == ti:        # only the integer float(token) denotes is mistaken for 'unchanged'
         return False
-    sh = token_shape(c["tok"])
-    v = _val(c)
-    if sh is None or not (sh["sci"] and sh["neg"]):
-        return False
-    if math.copysign(1.0, float(v)) < 0:
-        return False
-    return _passes_with_value(c, -abs(float(v)) if v != 0 else -1.0, "exception")
+    # the same node given a different integer is written exactly
+    return _passes_with_value(c, v + 7, "int-not-exact")
